@@ -6,11 +6,12 @@ Part A (all blockings): the model's `Mesh.write` succeeds exactly when every blo
 Part B (tables regenerated from the source on every run, `decide`): every sketch class and every probe
   shape is fully choppable by its documented chop calls, calls never collide in a wire family, quad maps
   are conformal and consistently oriented, lofting the quad map gives the blocking `Mesh.assemble` builds.
-Part C (all sizes): rings with any number of segments, stacks with any number of tiers.
+Part C (all sizes): rings with any number of segments, stacks with any number of tiers, the interface of
+  consecutive tiers (chained shapes at index level).
 Part D (geometry): the corner Jacobians used by the handedness validator are invariant under
   translations and scale with the determinant under linear maps (positive for rotations and scalings).
 -/
-import CBV.Lemmas.C11Stack
+import CBV.Lemmas.C11Chain
 import Mathlib.Tactic.Ring
 import Mathlib.Tactic.Linarith
 import Mathlib.Algebra.Order.Field.Rat
@@ -273,6 +274,52 @@ theorem T_C11_ring_stack (n k : Nat) (h : 2 ≤ n) :
   T_C11_ring_stack_of_wf n k (ringQuads_wf n h)
 
 example : ∀ q ∈ ringQuads 6, q.length = 4 ∧ q.Nodup := ringQuads_wf 6 (by omega)
+
+
+/-! ### chained shapes (index level): consecutive tiers share exactly the layer between them -/
+
+/-- a shape chained to the end sketch of a shape with the same quad map is the next tier of the stack:
+    the vertices the two tiers have in common are exactly the points of the interface layer
+    (all `nPoints Q` of them when every point index is used, cf. `T_C11_conformal_sketches`) … -/
+theorem T_C11_chain_interface (Q : List (List Nat)) (hused : allPointsUsed Q = true) (l v : Nat) :
+    (v ∈ tierVerts Q l ∧ v ∈ tierVerts Q (l + 1)) ↔
+      ((l + 1) * nPoints Q ≤ v ∧ v < (l + 2) * nPoints Q) := by
+  have e1 : (l + 1) * nPoints Q = l * nPoints Q + nPoints Q := Nat.succ_mul _ _
+  have e2 : (l + 2) * nPoints Q = l * nPoints Q + nPoints Q + nPoints Q := by
+    rw [show l + 2 = (l + 1) + 1 from rfl, Nat.succ_mul, e1]
+  have e3 : (l + 1 + 1) * nPoints Q = l * nPoints Q + nPoints Q + nPoints Q := e2
+  constructor
+  · rintro ⟨h1, h2⟩
+    obtain ⟨q, hq, i, hi, hv⟩ := mem_tierVerts.mp h1
+    obtain ⟨q', hq', j, hj, hv'⟩ := mem_tierVerts.mp h2
+    have hi' := point_lt_nPoints hq hi
+    have hj' := point_lt_nPoints hq' hj
+    rcases hv with hv | hv <;> rcases hv' with hv' | hv' <;> omega
+  · rintro ⟨h1, h2⟩
+    have hlt : v - (l + 1) * nPoints Q < nPoints Q := by omega
+    obtain ⟨q, hq, hi⟩ := (allPointsUsed_iff Q).mp hused _ hlt
+    constructor
+    · exact mem_tierVerts.mpr ⟨q, hq, _, hi, Or.inr (by omega)⟩
+    · exact mem_tierVerts.mpr ⟨q, hq, _, hi, Or.inl (by omega)⟩
+
+/-- … and tiers that are not consecutive have no vertex in common -/
+theorem T_C11_chain_disjoint (Q : List (List Nat)) (l l' v : Nat) (h : l + 1 < l') :
+    ¬ (v ∈ tierVerts Q l ∧ v ∈ tierVerts Q l') := by
+  rintro ⟨h1, h2⟩
+  obtain ⟨q, hq, i, hi, hv⟩ := mem_tierVerts.mp h1
+  obtain ⟨q', hq', j, hj, hv'⟩ := mem_tierVerts.mp h2
+  have hi' := point_lt_nPoints hq hi
+  have hj' := point_lt_nPoints hq' hj
+  have e1 : (l + 1) * nPoints Q = l * nPoints Q + nPoints Q := Nat.succ_mul _ _
+  have e2 : (l' + 1) * nPoints Q = l' * nPoints Q + nPoints Q := Nat.succ_mul _ _
+  have hle : (l + 2) * nPoints Q ≤ l' * nPoints Q := Nat.mul_le_mul_right _ (by omega)
+  have e3 : (l + 2) * nPoints Q = l * nPoints Q + nPoints Q + nPoints Q := by
+    rw [show l + 2 = (l + 1) + 1 from rfl, Nat.succ_mul, e1]
+  rcases hv with hv | hv <;> rcases hv' with hv' | hv' <;> omega
+
+/-- non-vacuity: the four-core disk uses all of its 17 points; tiers 0 and 1 share the 17 points of layer 1 -/
+example : sketchNamed "FourCoreDisk" (fun e => allPointsUsed e.quads && decide (nPoints e.quads = 17)) = true := by
+  decide +kernel
 
 /-! ## Part D — the handedness validator under placements -/
 
